@@ -61,6 +61,61 @@ type LOrder struct {
 	ClosedAt *int64 `sql:"closed_at"`
 	State    string
 	Timeout  int32
+	Consent  Consent
+}
+
+// Consent is a tri-state answer that is its own driver.Valuer / sql.Scanner and stands for SQL NULL by a value
+// that is not its zero value: Unanswered <-> NULL, No (the zero value) <-> 0, Yes <-> 1.  fields.Scanner hands
+// NULL to a non-pointer column of such a type; a row image decoded without doing so reads Unanswered as No, and
+// a live query on `consent IS NULL` misses the write.
+type Consent int8
+
+const (
+	No         Consent = 0
+	Yes        Consent = 1
+	Unanswered Consent = 2
+)
+
+func (c Consent) Value() (driver.Value, error) {
+	if c == Unanswered {
+		return nil, nil
+	}
+	return int64(c), nil
+}
+
+func (c *Consent) Scan(v interface{}) error {
+	var z int64
+	switch x := v.(type) {
+	case nil:
+		*c = Unanswered
+		return nil
+	case int8:
+		z = int64(x)
+	case int16:
+		z = int64(x)
+	case int32:
+		z = int64(x)
+	case int64:
+		z = x
+	case []byte:
+		return c.Scan(string(x))
+	case string:
+		switch x {
+		case "0":
+			z = 0
+		case "1":
+			z = 1
+		default:
+			return fmt.Errorf("Consent: cannot scan %q", x)
+		}
+	default:
+		return fmt.Errorf("Consent: cannot scan %T", v)
+	}
+	if z != 0 && z != 1 {
+		return fmt.Errorf("Consent: %d is not an answer", z)
+	}
+	*c = Consent(z)
+	return nil
 }
 
 // ColMeta is the MySQL side of one struct column.
@@ -109,6 +164,7 @@ var Catalogue = []*TableDef{
 		{Name: "closed_at", Type: fakesql.Int, Width: 64, Nullable: true},
 		{Name: "state", Type: fakesql.Text, Varchar: true},
 		{Name: "timeout", Type: fakesql.Int, Width: 32},
+		{Name: "consent", Type: fakesql.Int, Width: 8, Nullable: true},
 	}},
 }
 
@@ -396,6 +452,9 @@ func BaseOf(t reflect.Type) string {
 	}
 	if t == reflect.TypeOf([]byte(nil)) {
 		return "BBytes"
+	}
+	if t == reflect.TypeOf(Consent(0)) {
+		return "(BCustom CTri)"
 	}
 	switch t.Kind() {
 	case reflect.Int, reflect.Int64:
